@@ -18,8 +18,8 @@ ND(L, lo, n) == IF L = 0 THEN {<<>>}
 MaxLen == IF Thorough THEN 9 ELSE 6
 MaxP == IF Thorough THEN 4 ELSE 3
 ValueSets == IF Thorough
-             THEN {Q(<<0, 2, 4, 6, 8>>), Q(<<-7, -4, 0, 1, 8>>), Q(<<20, 22, 24, 28>>), <<R(0, 1), R(1, 8), R(1, 2), R(1, 1), R(3, 1)>>}
-             ELSE {Q(<<0, 2, 4, 6>>), Q(<<-7, -4, 0, 1>>)}
+             THEN {Q(<<0, 2, 4, 6, 8>>), Q(<<-7, -4, 0, 1, 8>>), Q(<<-7, -1, 1, 4>>), Q(<<20, 22, 24, 28>>), <<R(0, 1), R(1, 8), R(1, 2), R(1, 1), R(3, 1)>>}
+             ELSE {Q(<<0, 2, 4, 6>>), Q(<<-7, -1, 1, 4>>)}   \* [-1, 1]: a knot interval whose midpoint is exactly 0
 MaxLenFor(V) == IF Thorough /\ Len(V) = 5 /\ V[1] # RZero THEN 7 ELSE MaxLen
 
 KnotVectors == UNION {UNION {{[i \in 1..L |-> V[s[i]]] : s \in ND(L, 1, Len(V))} : L \in 1..MaxLenFor(V)} : V \in ValueSets}
